@@ -204,7 +204,9 @@ def encoder_arms(an, prog):
                 continue
             seen.add(p)
             bb = prog.bodies[p]
-            if switch_on(bb, adtn):
+            # a size helper (`fn encoded_len(&self) -> usize { match self {..} }`) also matches on the variants but
+            # emits nothing: the encoder is the body that produces / fills bytes
+            if switch_on(bb, adtn) and not re.match(r"^(usize|u\d+|i\d+|bool)$", bb.local_ty(0)):
                 return bb
             if dep < 3:
                 for _, _, c2 in bb.calls():
@@ -214,34 +216,44 @@ def encoder_arms(an, prog):
 
     b = encoder_body(FV + "::to_be_bytes", FV)
     db = encoder_body(b.path, DN) if b is not None else prog.body(DN + "::to_be_bytes")
-    for body, table, adtn in ((b, out, FV), (db, dn, DN)):
-        if body is None:
-            continue
+    def fill(body, table, adtn, depth=0):
         adt = prog.adts[adtn]
         for blk in switch_on(body, adtn)[:1]:
             t = body.term(blk)
-            if True:
-                for v, tb in t["targets"]:
-                    name = [x["name"] for x in adt["variants"] if x["vi"] == v]
-                    if not name:
-                        continue
-                    calls = arm_calls(an, body, blk, tb)
-                    names = [c.nsyn for _, _, c in calls]
-                    width = None
-                    for _, tt, c in calls:
-                        m = re.match(r"^core::(num|f32|f64)::<impl ([uif]\d+)>::to_be_bytes$", c.npath)
-                        if m:
-                            width = {"u8": 1, "u16": 2, "u32": 4, "i32": 4, "u64": 8, "u128": 16, "f64": 8, "f32": 4}.get(m.group(2))
-                        if c.npath in ("std::net::Ipv4Addr::octets",):
-                            width = 4
-                        if c.npath in ("std::net::Ipv6Addr::octets",):
-                            width = 16
-                        if c.npath.endswith("write_u24") or c.npath.endswith("write_i24"):
-                            width = 3
-                        if c.npath == "std::vec::Vec::push" and width is None and tt["argtys"][-1:] == ["u8"]:
-                            width = 1
-                    fallible = any(n in ("std::convert::TryFrom::try_from", "std::result::Result::map_err") or "try_from" in n for n in names)
-                    table[name[0]] = {"calls": names, "width": width, "fallible": fallible}
+            for v, tb in t["targets"]:
+                name = [x["name"] for x in adt["variants"] if x["vi"] == v]
+                if not name or name[0] in table:
+                    continue
+                calls = arm_calls(an, body, blk, tb)
+                names = [c.nsyn for _, _, c in calls]
+                width = None
+                for _, tt, c in calls:
+                    m = re.match(r"^core::(num|f32|f64)::<impl ([uif]\d+)>::to_be_bytes$", c.npath)
+                    if m:
+                        width = {"u8": 1, "u16": 2, "u32": 4, "i32": 4, "u64": 8, "u128": 16, "f64": 8, "f32": 4}.get(m.group(2))
+                    if c.npath in ("std::net::Ipv4Addr::octets",):
+                        width = 4
+                    if c.npath in ("std::net::Ipv6Addr::octets",):
+                        width = 16
+                    if c.npath.endswith("write_u24") or c.npath.endswith("write_i24"):
+                        width = 3
+                    if c.npath == "std::vec::Vec::push" and width is None and tt["argtys"][-1:] == ["u8"]:
+                        width = 1
+                fallible = any(n in ("std::convert::TryFrom::try_from", "std::result::Result::map_err") or "try_from" in n for n in names)
+                table[name[0]] = {"calls": names, "width": width, "fallible": fallible}
+            # the variants left to the default arm (`_ => { let mut out = ..; self.append_be_bytes(&mut out)?; .. }`)
+            # are encoded by the private function that arm delegates to
+            if depth < 3 and len(table) < len(adt["variants"]):
+                for _, _, c2 in arm_calls(an, body, blk, t["otherwise"]):
+                    if c2 is not None and c2.local and c2.kind == "Item" and c2.path != body.path:
+                        nb = encoder_body(c2.path, adtn)
+                        if nb is not None and nb.path != body.path:
+                            fill(nb, table, adtn, depth + 1)
+
+    for body, table, adtn in ((b, out, FV), (db, dn, DN)):
+        if body is None:
+            continue
+        fill(body, table, adtn)
     return out, dn
 
 
